@@ -255,9 +255,14 @@ class GenericContextRegistry(
         except Exception:
             # A redefinition could not be applied: a failed activation must leave
             # the registry exactly as it was before the call.
-            key = self._active_ctx.hashable()
-            self._caches.pop(key, None)
-            self._context_units.pop(key, None)
+            try:
+                key = self._active_ctx.hashable()
+            except TypeError:
+                # the failure may be just that: an unhashable parameter value
+                pass
+            else:
+                self._caches.pop(key, None)
+                self._context_units.pop(key, None)
             self._active_ctx.remove_contexts(len(contexts))
             self._switch_context_cache_and_units()
             raise
